@@ -14,11 +14,13 @@ import FP.Model.C17Json
 import FP.Model.SafetyJson
 import FP.Model.MFD
 import FP.Model.NodeExpandJson
+import FP.Model.NodeExpandModesJson
 import FP.Model.TablesJson
 import FP.Model.Enc.KFDCWitness
 import FP.Model.Enc.ErrCheck
 import FP.Model.Width
 import FP.Model.Enc.WalkSafety
+import FP.Model.Enc.PathSafety
 /-!
 # FP.Model.Enc.Handlers — the `lp.*` handlers of the encoder modules, for `Driver.lean`
 -/
@@ -27,6 +29,6 @@ open Lean
 
 def encHandlersAll : List (String → Json → Option (Except String Json)) :=
   [handleKLAE, handleKMPE, handleKCover, handleMGS, handleMSC, handleMEF,
-   handleKFDC, handleKCoverC, handleKLAEC, handleKMPEC, FP.Parser.handleParser, FP.MFD.handleMFD, NX.handleNodeExpand, handleK4, handleKFDCWitness, handleErrCheck, handleWidth, Safety.handleSafety, handleC17, handleIgnoreBlock, handleWalkSafety]
+   handleKFDC, handleKCoverC, handleKLAEC, handleKMPEC, FP.Parser.handleParser, FP.MFD.handleMFD, NX.handleNodeExpand, NX.handleNodeModes, handleK4, handleKFDCWitness, handleErrCheck, handleWidth, Safety.handleSafety, handleC17, handleIgnoreBlock, handleWalkSafety, handlePathSafety]
 
 end FP
